@@ -819,7 +819,7 @@ class SDMXBasePlan:
             out = np.empty((nfeat, ng))
         if l0tmp is None:
             l0tmp = np.empty((n0, na, ng))
-        elif l1tmp is None:
+        if l1tmp is None:
             l1tmp = np.empty((nfeat - n0, 3, na, ng))
         fit_mats = self._get_fit_mats()
         fac = -0.25 * self.nspin * self.nspin
@@ -1210,7 +1210,7 @@ class SDMXIntPlan(SDMXBasePlan):
             out = np.empty((nfeat, ng))
         if l0tmp is None:
             l0tmp = np.empty((na, ng))
-        elif l1tmp is None:
+        if l1tmp is None:
             l1tmp = np.empty((3, na, ng))
         fac = -0.25 * self.nspin * self.nspin
         l0tmp[:] = p_vag[0]
